@@ -1,0 +1,21 @@
+// Copyright (c) The Thanos Community Authors.
+// Licensed under the Apache License 2.0.
+
+//go:build verif
+
+package scan
+
+import (
+	"github.com/prometheus/prometheus/promql"
+	"github.com/prometheus/prometheus/storage"
+)
+
+// VerifSelectPoint exposes selectPoint to the verification harness.
+func VerifSelectPoint(it *storage.MemoizedSeriesIterator, ts, lookbackDelta, offset int64) (int64, float64, bool, error) {
+	return selectPoint(it, ts, lookbackDelta, offset)
+}
+
+// VerifSelectPoints exposes selectPoints to the verification harness.
+func VerifSelectPoints(it *storage.BufferedSeriesIterator, mint, maxt int64, out []promql.Point) ([]promql.Point, error) {
+	return selectPoints(it, mint, maxt, out)
+}
